@@ -248,7 +248,7 @@ def parseCid (r : Req) (pat : List PSeg) : Option Pin :=
   | some c =>
     match fromQuery r.query r.md with
     | none => none
-    | some o => some { pinWithOpts c o with depth := -1 }   -- "for now, all pins are recursive"
+    | some o => some (pinWithOpts c o)   -- the depth follows the mode, as for paths
 
 /-- `parsePinPathOrError` -/
 def parsePinPath (r : Req) (pat : List PSeg) : Option (String × Opts) :=
@@ -624,12 +624,24 @@ structure AddParams where
   rawLeaves : Bool
   deriving Repr
 
+/-- is the requested hash function something other than sha2-256?  (an unknown name is) -/
+def otherHash (q : List (String × QV)) : Bool :=
+  match getq q "hash" with
+  | .empty => false
+  | .valid (.str s) => s != "sha2-256"
+  | _ => true
+
+/-- A CIDv0 only carries sha2-256: with another hash function an explicit `cid-version=0` is refused
+    (`none`), an absent one becomes 1 -/
+def effCidv (q : List (String × QV)) (cidv : Int) : Option Int :=
+  if otherHash q && cidv == 0 then (if getq q "cid-version" != .empty then none else some 1) else some cidv
+
 /-- `AddParamsFromQuery`; `none` = 400 -/
 def addParams (q : List (String × QV)) (md : List (Nat × Nat)) : Option AddParams :=
   match fromQuery q md, wordParam (getq q "layout"), wordParam (getq q "format"),
         boolParam (getq q "local") false, boolParam (getq q "recursive") false, boolParam (getq q "hidden") false,
         boolParam (getq q "wrap-with-directory") false, boolParam (getq q "shard") false,
-        boolParam (getq q "progress") false, intParam (getq q "cid-version") 0 with
+        boolParam (getq q "progress") false, (intParam (getq q "cid-version") 0).bind (effCidv q) with
   | some o, some layout, some format, some _, some _, some _, some wrap, some shard, some _, some cidv =>
     (match boolParam (getq q "raw-leaves") (decide (cidv > 0)), boolParam (getq q "stream-channels") true,
            boolParam (getq q "nocopy") false with
@@ -662,14 +674,10 @@ def addHandle (r : AddReq) : AddResp :=
   else match addParams r.query r.md with
     | none => { status := 400, body := .docs 1, trailer := false, root := none, ops := [] }
     | some p =>
-      -- (the trickle builder hits the CIDv0-with-another-hash error before anything is allocated, and returns it)
-      if lateFailure r p || (p.cidv == 0 && hashOf r != "sha2-256" && p.layout == "trickle") then errorAnswer p []
+      if lateFailure r p then errorAnswer p []
       else
         let alloc : Op := ⟨"Cluster.BlockAllocate", .path "" (addOpts p)⟩
         if r.rpc != .ok then errorAnswer p [alloc]
-        else if p.cidv == 0 && hashOf r != "sha2-256" then
-          -- go-merkledag panics building a CIDv0 with another hash function
-          { status := 0, body := .docs 0, trailer := false, root := none, ops := [alloc] }
         else
           let raw := !p.wrap && p.rawLeaves && singleChunk r
           -- a raw leaf is a CIDv1 whatever cid-version says
